@@ -35,7 +35,7 @@ def determinism(ctx, npos):
            ("login_start", lambda t: [t, b"pw"], ctx.btape(L.Nsk + 56, 1)),
            ("srv_login_start", lambda t: [t, base.setup, base.file, base.ke1, b"alice", None, None, None], ctx.tape(64 + L.Nsk + 24)),
            ("srv_login_start", lambda t: [t, base.setup, None, base.ke1, b"alice", None, None, None], ctx.tape(L.Nh + 64 + L.Nsk + 24)),
-           ("ke_random_sk", lambda t: [t], ctx.tape(200 if L.ke != "P521" else 66 * 500))]
+           ("ke_random_sk", lambda t: [t], ctx.sk_tape(24))]
     for op, mk, tape in ops:
         r1 = ctx.call(op, *mk(tape))
         r2 = ctx.call(op, *mk(tape))
